@@ -34,6 +34,10 @@ type Taskfile struct {
 	Dotenv   []string
 	Run      string
 	Interval time.Duration
+
+	// ownVars holds the variables that the Taskfile itself declares, as they
+	// were before the variables of its includes were merged into Vars
+	ownVars *Vars
 }
 
 // Merge merges the second Taskfile into the first
@@ -59,9 +63,18 @@ func (t1 *Taskfile) Merge(t2 *Taskfile, include *Include) error {
 	if t1.Tasks == nil {
 		t1.Tasks = NewTasks()
 	}
+	if t1.ownVars == nil {
+		t1.ownVars = t1.Vars.DeepCopy()
+	}
+	// The tasks of the included Taskfile keep the variables that their own
+	// Taskfile declares, not the ones of the Taskfiles that it includes
+	t2Vars := t2.Vars
+	if t2.ownVars != nil {
+		t2Vars = t2.ownVars
+	}
 	t1.Vars.Merge(t2.Vars, include)
 	t1.Env.Merge(t2.Env, include)
-	return t1.Tasks.Merge(t2.Tasks, include, t2.Vars)
+	return t1.Tasks.Merge(t2.Tasks, include, t2Vars)
 }
 
 func (tf *Taskfile) UnmarshalYAML(node *yaml.Node) error {
